@@ -294,6 +294,36 @@ def witnesses(pm: ProgramModel, ctx: Ctx) -> None:
     sortkey("Constraint", "name", c1, c2, "its key depends on the constraint's name, which == ignores")
     sortkey("Constraint", "case", c1, c3, "its key depends on letter case, which == ignores")
     sortkey("Feature", "context", a1, a2, "its key depends on more than the name")
+    # in-place edits after a first comparison / hash: equality must follow the current state ------------
+    def edited_after_use(key: str, a: AObj, b: AObj, edit: Any, what: str, where: str) -> None:
+        r0 = eq(a, b)
+        hk(a), hk(b)
+        edit(b)
+        r1, r2 = eq(a, b), eq(b, a)
+        fresh_same = hk(a) != hk(b)
+        ctx.check(r0 is True and r1 is False and r2 is False, "C20-DISTINCT", f"edited-in-place:{key}", where,
+                  f"{what}: equal before the edit, unequal after it",
+                  bad=f"{what}: before the edit a==b is {r0}; after editing b in place a==b is {r1}, b==a is {r2} "
+                      f"(a value computed before the edit is still used)")
+    k1 = mb.constraint("k", mb.node(op("IMPLIES"), mb.node("A"), mb.node("B")))
+    k2 = mb.constraint("k", mb.node(op("IMPLIES"), mb.node("A"), mb.node("B")))
+    edited_after_use("Constraint:operator", k1, k2,
+                     lambda c: c._f["_ast"]._f["root"]._f.__setitem__("data", op("EXCLUDES")),
+                     "constraint whose operator is changed in place", cw)
+    k3 = mb.constraint("k", mb.node(op("IMPLIES"), mb.node("A"), mb.node("B")))
+    k4 = mb.constraint("k", mb.node(op("IMPLIES"), mb.node("A"), mb.node("B")))
+    edited_after_use("Constraint:operand", k3, k4,
+                     lambda c: c._f["_ast"]._f["root"]._f["right"]._f.__setitem__("data", "C"),
+                     "constraint whose operand is changed in place", cw)
+    ra, rb = rel("P", ["a", "b"], 1, 2), rel("P", ["a", "b"], 1, 2)
+    edited_after_use("Relation:card_max", ra, rb, lambda r: r._f.__setitem__("card_max", 1),
+                     "relation whose card_max is changed in place", rw)
+    rc, rd = rel("P", ["a", "b"], 1, 2), rel("P", ["a", "b"], 1, 2)
+    edited_after_use("Relation:children", rc, rd, lambda r: r._f["children"].append(mb.feature("z")),
+                     "relation that gets another child in place", rw)
+    fa, fb = mb.feature("A"), mb.feature("A")
+    edited_after_use("Feature:name", fa, fb, lambda f: f._f.__setitem__("name", "B"),
+                     "feature renamed in place", fw)
     # FeatureModel ----------------------------------------------------------------------------------
     mw = _where(pm, "FeatureModel")
 
@@ -348,6 +378,10 @@ def witnesses(pm: ProgramModel, ctx: Ctx) -> None:
     for o in (1, 2):
         must_equal("C20-WITNESS", f"FeatureModel:perm{o}", m0, model(o),
                    f"a model and its independently rebuilt, order-permuted copy (#{o})", mw)
+    mm1, mm2 = model(0), model(1)
+    edited_after_use("FeatureModel:constraint-operator", mm1, mm2,
+                     lambda m: m._f["ctcs"][0]._f["_ast"]._f["root"]._f.__setitem__("data", op("EXCLUDES")),
+                     "model one of whose constraints is changed in place", mw)
     for edit in ("rename", "root", "card", "regroup", "move", "operator", "operand", "dropctc"):
         must_differ(f"FeatureModel:{edit}", m0, model(0, edit), f"models differing by edit '{edit}'", mw)
         must_differ(f"FeatureModel:{edit}/perm", model(1), model(0, edit),
